@@ -579,6 +579,9 @@ FILE* __wrap_fdopen(int fd, const char* mode) {
             delete ck;
             return nullptr;
         }
+        // glibc sizes the buffer of an fd stream from st_blksize (4096 on the usual file systems); a cookie stream
+        // would get BUFSIZ (8192). Use the production value mostly, the other one sometimes.
+        setvbuf(f, nullptr, _IOFBF, (sim::active() && !sim::quiet() && sim::choose(sim::S_IO, 4) == 3) ? 8192 : 4096);
         g_streams[f] = fd;
         return f;
     }
